@@ -44,7 +44,7 @@ def run_spec(V, label, c, emit=True, coverage=False):
 
 
 def gen_quality_file(rng, nrows):
-    cols = ['id', 'small', 'mid', 'wide', 'label']
+    cols = ['id', 'small', 'mid', 'wide', 'sparse', 'label']
     lines = [','.join(cols) + '\n']
     for p in range(1, nrows + 1):
         # missingness drifts along the file, so that per-batch coverages are skewed (mean != median != pooled)
@@ -52,7 +52,8 @@ def gen_quality_file(rng, nrows):
         small = rng.choice(['a', 'b', 'c', '', '{}', 'a', 'a']) if not late else rng.choice(['', '{}', '', 'a'])
         mid = str(rng.randrange(40)) if rng.random() < (0.98 if not late else 0.35) else ''
         wide = f'w{int(rng.paretovariate(0.7)) % 500}'
-        lines.append(f'{p % 7},{small},{mid},{wide},{rng.randrange(2)}\n')
+        sparse = rng.choice(['u', 'v', 'w']) if p <= 0.4 * nrows else ''          # entirely missing in the later batches: their coverage is exactly 0
+        lines.append(f'{p % 7},{small},{mid},{wide},{sparse},{rng.randrange(2)}\n')
     return cols, lines
 
 
